@@ -22,7 +22,7 @@ value (`unescape`: the five predefined entities and numeric character references
 Names are byte lists; the harness only sends valid UTF-8 (the `Decoder` check is outside the model).
 There is no panicking operation in this code (`split(..).next_back()` / `.next()` never return
 `None`), so the outcome has no `panic` constructor; `vec![true; cb]` is `List.replicate` and its
-size is not bounded by the input size (finding C10-branch-vector-alloc / DESIGN §7 item 9).
+size is not bounded by the input size (finding C14-jacoco-branch-vector-alloc / DESIGN §7 item 9).
 -/
 import GrcovModel.Merge
 namespace Grcov.Jacoco
